@@ -100,7 +100,8 @@ class Flow:
                 else:
                     self.through.setdefault(d['l'], []).append((bi, si, d, s['r']))
                 r = s['r']
-                if r['k'] == 'ref' and r['m']:
+                if r['k'] == 'ref' and r['m'] and not ('p' in r['p'] and r['p']['p'] and r['p']['p'][0] == '*'):
+                    # (`&mut (*l).f` re-borrows what l points to; it does not make l itself mutable through a reference)
                     self.mutref.setdefault(r['p']['l'], []).append((bi, si))
             t = blk['t']
             if t['k'] == 'call':
@@ -218,17 +219,29 @@ class Flow:
         self._memo[l] = r
         return r
 
-    def sources(self, e, site=None, _seen=None):
+    def sources(self, e, site=None, _seen=None, stop=None):
         """[(block, stmt idx, expr)]: the assignments a value may come from.  A join-point local is expanded into the
         rvalues of its plain assignments (recursively); anything else is its own single source at `site`."""
         _seen = _seen if _seen is not None else set()
+        if stop is not None and stop(e):
+            return [(site[0] if site else None, site[1] if site else None, e)]
+        if e[0] == 'field' and e[1][0] == 'local' and e[1][1] not in _seen:
+            # a component of a join-point aggregate: the matching component of every aggregate assigned to it
+            out = []
+            for (b_, si_, se) in self.sources(e[1], site, set(_seen), stop):
+                if se[0] == 'agg' and e[2] in dict(se[3]):
+                    out += self.sources(dict(se[3])[e[2]], (b_, si_) if b_ is not None else site, set(_seen), stop)
+                else:
+                    return [(site[0] if site else None, site[1] if site else None, e)]
+            if out:
+                return out
         if e[0] == 'local' and e[1] not in _seen:
             ds = self.defs.get(e[1], [])
             if ds and all(d[0] == 'assign' for d in ds) and e[1] not in self.partial:
                 _seen.add(e[1])
                 out = []
                 for d in ds:
-                    out += self.sources(self.rvalue(d[3], 0), (d[1], d[2]), _seen)
+                    out += self.sources(self.rvalue(d[3], 0), (d[1], d[2]), _seen, stop)
                 return out
         return [(site[0] if site else None, site[1] if site else None, e)]
 
